@@ -36,6 +36,10 @@ pub struct Style {
     pub field_suffix: &'static str,
     /// over lib/std/builtin.zy instead of the minimal signature
     pub standard_builtin: bool,
+    /// print chains of `let` bindings as `begin let .. that let .. that body end` blocks
+    pub block_lets: bool,
+    /// permutation seed for the contributions of such blocks (0 = source order)
+    pub block_shuffle: u64,
 }
 
 impl Style {
@@ -50,6 +54,8 @@ impl Style {
             telescopes: false,
             field_suffix: "",
             standard_builtin: false,
+            block_lets: false,
+            block_shuffle: 0,
         }
     }
     pub fn describe(&self) -> String {
@@ -64,7 +70,7 @@ impl Style {
             if self.telescopes { "+telescopes" } else { "" },
             if self.field_suffix.is_empty() { "" } else { "+renamed-fields" },
             if self.standard_builtin { "+std-builtin" } else { "" },
-        )
+        ) + if self.block_lets { "+blocks" } else { "" } + if self.block_shuffle != 0 { "+shuffled-blocks" } else { "" }
     }
 }
 
@@ -402,6 +408,45 @@ impl<'a> Printer<'a> {
                 let p = self.pat_atom(pat, bindee_ty);
                 let t = self.comp(tail, ty, checked, &vis2);
                 format!("do {} <- {};\n{}", p, b, t)
+            }
+            | Comp::Let { tail, .. } if self.style.block_lets && matches!(**tail, Comp::Let { .. }) && self.mutation.is_none() => {
+                // a chain of lets as one block: every contribution is visible throughout the block and the
+                // checker orders them by dependency, not by position
+                let mut chain: Vec<(&Pat, &Val, &VTy)> = Vec::new();
+                let mut cur: &Comp = c;
+                while let Comp::Let { pat, val, ty: vt, tail } = cur {
+                    chain.push((pat, val, vt));
+                    cur = tail;
+                    if chain.len() >= 6 {
+                        break;
+                    }
+                }
+                let body: &Comp = cur;
+                // names: pairwise distinct, and legal with respect to the *whole* block
+                let in_block = |x: VarId| chain.iter().any(|(_, v, _)| free_in_val(v, x)) || free_in_comp(body, x);
+                let mut vis2 = vis.clone();
+                let mut bound_here = Vec::new();
+                for (pat, _, _) in &chain {
+                    self.pat_names(pat, &in_block, &mut vis2, &mut bound_here);
+                }
+                let mut contributions: Vec<String> = Vec::new();
+                for (pat, val, vt) in &chain {
+                    let annotate = self.style.annotate_all || matches!(val, Val::Ctor { .. }) || needs_check(val);
+                    let v = self.val_any(val, vt, annotate, &vis2);
+                    let p = self.pat(pat);
+                    if annotate {
+                        let tys = self.vty(vt, 5);
+                        contributions.push(format!("let {} : {} = {} that", p, tys, v));
+                    } else {
+                        contributions.push(format!("let {} = {} that", p, v));
+                    }
+                }
+                if self.style.block_shuffle != 0 {
+                    let mut r = Rng::new(self.style.block_shuffle ^ (contributions.len() as u64) << 7 ^ self.counter as u64);
+                    r.shuffle(&mut contributions);
+                }
+                let t = self.comp(body, ty, checked, &vis2);
+                format!("begin\n{}\n{}\nend", contributions.join("\n"), t)
             }
             | Comp::Let { pat, val, ty: vt, tail } => {
                 let annotate = self.style.annotate_all || matches!(val, Val::Ctor { .. }) || needs_check(val);
